@@ -70,7 +70,7 @@ func (g *advGen) payload(c int, k string, revBase []int) interface{} {
 			if j+1 == c {
 				p[j] = "absent"
 			} else if g.hit() {
-				p[j] = []string{"bad", "undec", "absent"}[g.rnd.Intn(3)]
+				p[j] = []string{"bad", "badt", "undec", "absent"}[g.rnd.Intn(4)]
 			}
 		}
 		return p
